@@ -92,48 +92,6 @@ Definition gtype_matches (g : gtype) (o : otype) : bool :=
 
 Definition subset (a b : list bytes) : bool := forallb (fun x => existsb (bytes_eqb x) b) a.
 
-Definition last_segment (p : bytes) : bytes :=
-  match last_index_of "/"%char p with
-  | Some i => skipn (S i) p
-  | None => p
-  end.
-
-(* ---- the known-finding class, as a predicate over the structured input ---- *)
-
-Fixpoint ty_pkgs (t : ty) : list bytes :=
-  match t with
-  | TNamed p _ _ => [p]
-  | TPtr e | TSlice e | TArray _ e => ty_pkgs e
-  | TMap k v => ty_pkgs k ++ ty_pkgs v
-  | _ => []
-  end.
-
-Definition is_container (t : ty) : bool := match t with TSlice _ | TMap _ _ => true | _ => false end.
-
-Definition own_rhs (ti : tinput) : option rhs :=
-  option_map snd (find (fun p => bytes_eqb (fst p) (ti_name ti)) (ti_group ti)).
-
-Definition own_origin (ti : tinput) : option tyname :=
-  match own_rhs ti with Some r => rhs_obj r | None => None end.
-
-Definition name_in (n : bytes) (l : list bytes) : bool := existsb (bytes_eqb n) l.
-
-Definition shadow_names_block : list bytes := [bs "in"; bs "out"; bs "i"; bs "o"].
-
-Definition shadow_type (target : bytes) (ti : tinput) : bool :=
-  ti_enabled ti &&
-  match ti_under ti, own_origin ti with
-  | Some fs, Some (opkg, _) =>
-      (negb (bytes_eqb opkg target) && bytes_eqb (last_segment opkg) (bs "in"))
-      || existsb (fun f =>
-           negb (omitted (ti_omit ti) (f_name f)) && is_container (f_ty f)
-           && existsb (fun p => negb (bytes_eqb p target) && name_in (last_segment p) shadow_names_block) (ty_pkgs (f_ty f)))
-         fs
-  | _, _ => false
-  end.
-
-Definition shadow_class (target : bytes) (tis : list tinput) : bool := existsb (shadow_type target) tis.
-
 (* ---- mismatch: the model (repaired code) against the observation ---- *)
 
 Definition model_of (c : case) : outcome :=
@@ -161,34 +119,6 @@ Definition mismatch (c : case) : bool :=
   || negb (Bool.eqb (shadow_class (c_target c) (c_types c)) (c_shadow c)).
 
 (* ---- the property's own sentence on (input, observed) ---- *)
-
-Fixpoint resolve (imps : list (bytes * bytes)) (q : bytes) : option bytes :=
-  match imps with
-  | [] => None
-  | (p, n) :: r => if bytes_eqb n q then Some p else resolve r q
-  end.
-
-Fixpoint nodupb (l : list bytes) : bool :=
-  match l with
-  | [] => true
-  | x :: r => negb (existsb (bytes_eqb x) r) && nodupb r
-  end.
-
-(* the printed expression denotes the go/types type, foreign packages resolved through the file's import block *)
-Fixpoint denotes (imps : list (bytes * bytes)) (target : bytes) (o : oty) (t : ty) : bool :=
-  match o, t with
-  | OIdent n, TBasic n' => bytes_eqb n n'
-  | OIdent n, TAny => bytes_eqb n (bs "any")
-  | OIdent n, TError => bytes_eqb n (bs "error")
-  | OIdent n, TNamed p n' _ => bytes_eqb p target && bytes_eqb n n'
-  | OSel q n, TNamed p n' _ =>
-      negb (bytes_eqb p target) && bytes_eqb n n' && option_eqb bytes_eqb (resolve imps q) (Some p)
-  | OPtr a, TPtr b => denotes imps target a b
-  | OSlice a, TSlice b => denotes imps target a b
-  | OArray n a, TArray m b => N.eqb n m && denotes imps target a b
-  | OMap k a, TMap l b => denotes imps target k l && denotes imps target a b
-  | _, _ => false
-  end.
 
 Definition denotes_name (imps : list (bytes * bytes)) (target : bytes) (o : oty) (tn : tyname) : bool :=
   denotes imps target o (TNamed (fst tn) (snd tn) []).
@@ -315,15 +245,13 @@ Definition type_holds (imps : list (bytes * bytes)) (target : bytes) (ti : tinpu
   | _, _ => false
   end.
 
-(* why a declaration must be reported as an error *)
-Definition decl_error (ti : tinput) : option errkind :=
-  match ti_under ti with
-  | None => Some EMustStruct
-  | Some _ => match own_origin ti with None => Some ENeedNamed | Some _ => None end
-  end.
+Definition otype_quals (ot : otype) : list bytes :=
+  oty_quals (ot_origin ot) ++ oty_quals (ot_into ot)
+  ++ flat_map (fun f => oty_quals (of_ty f)) (ot_fields ot) ++ flat_map stmt_quals (ot_stmts ot).
 
-Definition errkind_eqb (a b : errkind) : bool :=
-  match a, b with EMustStruct, EMustStruct | ENeedNamed, ENeedNamed => true | _, _ => false end.
+Definition imports_used (imps : list (bytes * bytes)) (ots : list otype) : bool :=
+  let used := flat_map otype_quals ots in
+  forallb (fun pn => name_in (snd pn) used) imps.
 
 Definition holds (c : case) : bool :=
   let en := filter ti_enabled (c_types c) in
@@ -337,7 +265,7 @@ Definition holds (c : case) : bool :=
   else
     match c_obs c with
     | ObsFile imps ots =>
-        nodupb (map snd imps) && list_match (type_holds imps (c_target c)) en ots
+        nodupb (map snd imps) && imports_used imps ots && list_match (type_holds imps (c_target c)) en ots
     | _ => false
     end.
 
